@@ -324,8 +324,8 @@ struct Fp {
 /// Complete fingerprint (expensive: full `{:#?}` renderings); taken around every serving round.
 fn fingerprint_full(w: &World) -> Fp {
     let mut f = fingerprint(w);
-    f.runtime = format!("{:#?}", w.runtime);
-    f.provenance = format!("{:#?}", w.provenance);
+    f.runtime = hex::encode(vkit::debug_hash(&w.runtime));
+    f.provenance = hex::encode(vkit::debug_hash(&w.provenance));
     f
 }
 
@@ -827,7 +827,7 @@ fn serve(x: &W16, reqs: &[ReqSeed], probe: &mut Probe, hashes: &mut BTreeMap<[u8
     let w = &x.w;
     let stripped = strip(x)?;
     let full_before = fingerprint_full(w);
-    let stripped_before = format!("{stripped:?}");
+    let stripped_before = vkit::debug_hash(&stripped);
     let mut replayed: ReplayCache = BTreeMap::new();
     let mut items = Vec::new();
     for rs in reqs {
@@ -936,7 +936,7 @@ fn serve(x: &W16, reqs: &[ReqSeed], probe: &mut Probe, hashes: &mut BTreeMap<[u8
         }
         probe.evals(2);
     }
-    if stripped_before != format!("{stripped:?}") {
+    if stripped_before != vkit::debug_hash(&stripped) {
         return Err(Fail::new("C16/read-mutated/provenance", "serving recorded-truth requests changed the provenance copy"));
     }
     if let Some(f) = fp_diff(&full_before, &fingerprint_full(w)) {
